@@ -188,6 +188,9 @@ def p1(ctx, A):
     props_ = [x for x in nones_ if from_unknown_size(x)]
     ctx.ob(['C10', 'C03', 'C01'], 'R-ERR', 'P1|none-only-from-unknown-size', not own_none and len(props_) >= 1,
            'Regions::push returns None only by propagating an unknown size (%d `?` sites, %d literal None returns)' % (len(props_), len(own_none)), where)
+    skips_ = [x for x in rp.exits() if x['kind'] == 'some' and not rp.dominates(pb, x['block'])]
+    other_ok = other_ok and len(skips_) == 1        # and there IS such a path: zero-length padding must vanish (C20: an address equal to
+    #                                                 the current end, or a size equal to the natural size, adds no `[u8; 0]` field)
     ctx.ob(['C01', 'C20'], 'R-PAIR', 'P1|skip-only-zero-sized-arrays', other_ok,
            'a region is skipped without being pushed only under size == 0 && is_array (so named zero-sized fields are kept and zero-length padding vanishes): %s' % detail, where)
 
@@ -892,6 +895,18 @@ def tdb_rules(ctx, A):
     queued_region_fields(ctx, tdb, where)
     ctx.ob(['C01', 'C03', 'C20'], 'R-SLP', 'TDB|queued-address', okq,
            'the address queued with a field is the value of its `address` attribute on every path (named or `_`): %s' % [(show(v_)[:40], [(show(c)[:40], l) for c, l in cs_]) for cs_, v_ in qrows][:4], where)
+    # a vftable block anywhere but in first position is rejected (the pointer is laid out at offset 0 whatever the description says,
+    # so a later position would silently contradict the written order): the test sits in front of the conversion of the block's
+    # functions, on the Vftable arm of the statement match
+    gvf = [g for g in gs if g.kind == 'reject' and cmp_parts(g.pred) and cmp_parts(g.pred)[0] == 'Ne' and is_int(cmp_parts(g.pred)[2], 0) and
+           strip(cmp_parts(g.pred)[1])[0] == 'field' and strip(cmp_parts(g.pred)[1])[2] == '0' and find_calls(g.pred, 'Iterator::enumerate')]
+    okvf = False
+    if len(gvf) == 1:
+        conv = [c_ for c_ in tdb.calls(lambda r: r['path'] and r['path'].endswith('convert_grammar_functions_to_semantic_functions'))]
+        arm = [(s_, tgt) for s_ in tdb.switches() if s_['cond'][0] == 'discr' for lab, tgt in s_['edges'] if lab == 'Vftable' and tdb.dominates(tgt, gvf[0].block)]
+        okvf = bool(arm) and bool(conv) and all(tdb.dominates(gvf[0].block, c_['block']) for c_ in conv)
+    ctx.ob(['C06', 'C04', 'C01'], 'R-GUARD', 'G19|vftable-block-first', okvf,
+           'a vftable block whose statement index is not 0 is rejected before its functions are converted (%d such test(s))' % len(gvf), gvf[0].where() if gvf else where)
     # every function of the type's impl block is built (its types resolved, its address required) — none is filtered out before
     fam_ = [tdb] + [h_ for h_ in method_family(P, tdb) if h_ is not tdb]
     okf = False
@@ -1198,7 +1213,10 @@ def sole_field_alignment(tdb, e):
 # ------------------------------------------------------------------------------------------------
 ORDER_BEARING = [REGION, 'grammar::TypeStatement', 'semantic::function::Function', 'grammar::Function', '(std::string::String, isize)',
                  'grammar::EnumStatement', 'semantic::function::Argument', 'grammar::Argument', 'grammar::Attribute', 'semantic::types::Backend',
-                 'grammar::Backend', 'grammar::ItemPath', 'semantic::types::ExternValue', 'grammar::ItemDefinition', 'grammar::ExternValue']
+                 'grammar::Backend', 'grammar::ItemPath', 'semantic::types::ExternValue', 'grammar::ItemDefinition', 'grammar::ExternValue',
+                 # field paths of the hierarchy walk and of the AsRef / AsMut bodies, (path, type) pairs
+                 "std::slice::Iter<'_, std::string::String>", "std::slice::Iter<'_, &str>", "std::slice::Iter<'_, proc_macro2::Ident>",
+                 "std::slice::Iter<'_, (std::vec::Vec<proc_macro2::Ident>, syn::Type)>", "std::slice::Iter<'_, (std::vec::Vec<std::string::String>, semantic::types::Type)>"]
 ORDER_CHANGING = re.compile(r'(slice::<impl \[T\]>::(sort\w*|reverse|swap|rotate_\w+|select_nth\w*)|Vec::<T, A>::(insert|remove|retain\w*|dedup\w*|drain|swap_remove|pop|truncate|split_off)|'
                             r'Iterator::(rev|skip|take|step_by|skip_while|take_while|map_while|scan|fuse|cycle)|DoubleEndedIterator::\w+|Iterator::(last|max\w*|min\w*))$')
 # reviewed order-changing calls: (function, callee fragment, element type fragment) -> reason
@@ -1216,6 +1234,9 @@ SEQ_PROPS = {
     '(std::string::String, isize)': ['C08'], 'grammar::EnumStatement': ['C08'], 'semantic::function::Argument': ['C04', 'C05'], 'grammar::Argument': ['C04', 'C05', 'C18'],
     'grammar::Attribute': ['C17', 'C18', 'C20'], 'semantic::types::Backend': ['C14'], 'grammar::Backend': ['C14', 'C18'], 'grammar::ItemPath': ['C11', 'C09'],
     'semantic::types::ExternValue': ['C09', 'C14'], 'grammar::ItemDefinition': ['C14', 'C09'], 'grammar::ExternValue': ['C14', 'C15'],
+    "std::slice::Iter<'_, std::string::String>": ['C07', 'C13'], "std::slice::Iter<'_, &str>": ['C07', 'C13'], "std::slice::Iter<'_, proc_macro2::Ident>": ['C07', 'C13'],
+    "std::slice::Iter<'_, (std::vec::Vec<proc_macro2::Ident>, syn::Type)>": ['C07', 'C13'],
+    "std::slice::Iter<'_, (std::vec::Vec<std::string::String>, semantic::types::Type)>": ['C07', 'C13'],
 }
 
 
